@@ -187,6 +187,8 @@ pub fn letter(l: char, n: usize) -> Vec<Step> {
             sets: vec![("K".into(), V::Int(0))],
             cond: Some(MExpr::Bin(Bin::Ge, Box::new(MExpr::Col("K".into())), Box::new(MExpr::Lit(V::Int(4))))),
         }),
+        'm' => d(Op::Update { table: t, sets: vec![("K".into(), V::Int(9)), ("V".into(), tok("m"))], cond: k_eq(1) }),
+        'n' => d(Op::Update { table: t, sets: vec![("V".into(), tok("n")), ("K".into(), V::Int(3))], cond: k_eq(4) }),
         'j' => d(Op::Delete { table: t, cond: k_eq(1) }),
         'k' => d(Op::Delete {
             table: t,
